@@ -29,6 +29,10 @@ def table_for(prog, A, fids, effect_pred, write_pred=None):
             eff = effect_pred(b, S, ev)
             if eff is None:
                 continue
+            # one call site is one row (the fixpoint may have recorded it with less and with more known arguments)
+            if (eff, ev[6], ev[1]) in wseen:
+                continue
+            wseen.add((eff, ev[6], ev[1]))
             gs = sorted(guards.guard_set(b, S, ev[6]))
             rows.append([eff, gs])
         # predicate closures of this function (`.any(|x| x.a == y)`, `.filter(|x| ..)`, `.retain(|x| ..)`): what they test
